@@ -840,10 +840,14 @@ func genAllArgsCons(ctx TaggedStructContext, genMethod fp.Set[string]) fp.Set[st
 		}).MakeString(",\n")
 
 		valueType := ts.Info.TypeStr(w, workingPackage)
+		if fields != "" {
+			// the composite literal needs its trailing comma only when there are fields
+			fields = fields + ","
+		}
 		fmt.Fprintf(w, `
 			func %s%s(%s) %s {
 				return %s {
-					%s,
+					%s
 				}
 			}
 		`, fnName, ts.Info.TypeParamDecl(w, workingPackage), tp, valueType,
@@ -877,10 +881,14 @@ func genRequiredArgsCons(ctx TaggedStructContext, genMethod fp.Set[string]) fp.S
 		}).MakeString(",\n")
 
 		valueType := ts.Info.TypeStr(w, workingPackage)
+		if fields != "" {
+			// the composite literal needs its trailing comma only when there are fields
+			fields = fields + ","
+		}
 		fmt.Fprintf(w, `
 			func %s%s(%s) %s {
 				return %s {
-					%s,
+					%s
 				}
 			}
 		`, fnName, ts.Info.TypeParamDecl(w, workingPackage), tp, valueType,
